@@ -237,6 +237,9 @@ impl<T: Socket + ?Sized> Worker<T> {
                             if window.is_full() {
                                 break;
                             }
+                        } else {
+                            window.empty()?;
+                            self.send_packet(&Packet::Ack(block_number))?;
                         }
                     }
                     Ok(Packet::Error { code, msg }) => {
